@@ -474,6 +474,16 @@ def roundtrip(nap, x, d, via):
     f = Folder(d)
     f.save("viafolder", x)
     g = Folder(d)                      # a fresh Folder reads the file back (Folder.save caches the object itself)
+    if via == "folder_overwrite":
+        # the same LIVE folder: a first object saved and loaded under the name, then x saved over it and loaded again
+        first = nap.Ts(np.array([1.0, 2.0, 3.0]))
+        h = Folder(d)
+        h.save("again", first)
+        h.load()
+        _ = h["again"]
+        h.save("again", x)
+        h.load()
+        return h["again"], None, None
     return g["viafolder"], None, None
 
 
@@ -492,7 +502,7 @@ def run_case(nap, res, sp, var, d, lines, pending, use_oracle=True):
     if not nontrivial:
         res.count("empty_objects")
     desc_x = describe(nap, x)
-    for via in ("load_file", "folder"):
+    for via in ("load_file", "folder", "folder_overwrite"):
         shutil.rmtree(d, ignore_errors=True)
         os.makedirs(d)
         try:
@@ -617,7 +627,7 @@ def replay(payload):
     try:
         x = build(nap, sp)
         print("saved   :", describe(nap, x))
-        for via in ("load_file", "folder"):
+        for via in ("load_file", "folder", "folder_overwrite"):
             d = os.path.join(base, via)
             os.makedirs(d)
             try:
